@@ -111,7 +111,7 @@ class EditWorld(object):
         self.oracles = set(oracles)
         r = random.Random(cfg["data_seed"])
         self.data = bridge.make_data(r, cfg["n"], samples=cfg["samples"], grid=cfg["grid"], style=cfg["style"],
-                                     outlier_prob=cfg["outlier_prob"])
+                                     outlier_prob=cfg["outlier_prob"], hetero=bool(cfg.get("hetero")))
         self.values = {d.idx: np.asarray(d.value) for d in self.data}
         self.out_prior = {d.idx: ((d.outlier_prob, d.outlier_prob_not) if d.outlier_prob != 0 else None) for d in self.data}
         self.grid_size = self.data[0].grid_size
